@@ -53,9 +53,10 @@ CHECKS["C12"] = dict(
          "none/local/remote agree with an RFC 3986 scheme classifier and local/remote are mutually exclusive; spelled locations (relative, "
          "dotted, percent-encoded, absolute, file URL; segments chosen by symbolic indices) resolved by the real get_url never pass the "
          "sandbox unless the final URL lies inside the base directory.",
-    note="Nothing is opened (text-source resource; only get_url/access_control run). posixpath/pathlib are C-level and intolerant of symbolic "
-         "strings, hence finite-choice spellings. Symlinks/Windows/network outside. Reach via include/import etc. relies on all of them "
-         "constructing XMLResource with the propagated settings.",
+    note="The symbolic obligations open nothing (text-source resource; only get_url/access_control run). posixpath/pathlib are C-level and "
+         "intolerant of symbolic strings, hence finite-choice spellings. Symlinks/Windows/network outside. The 'reach' obligation follows "
+         "include/import/redefine/override/locations/xsi:schemaLocation on real files in a temporary tree for 6 mechanisms x 11 spellings; there "
+         "the solver only picks the arrangement and each path is one concrete run outside the tracer (weak form, DESIGN 9).",
     ref="DESIGN.md 5/C12")
 
 CHECKS["C11"] = dict(
@@ -142,8 +143,10 @@ CHECKS["C14"] = dict(
          "pair of the catalogue (same shape, dropped particle, chosen branch, wildcard->element, substitution member, foreign/repeated "
          "element) and every occurrence-class vector of the derived particles, is_restriction()==True implies that every word up to the "
          "bound accepted by the derived model is accepted by the base model; XSD 1.0 and 1.1 code paths. Wildcard restriction: see C16.",
-    note="Facet and attribute-use restriction checks run inside schema construction (not executable under the tracer): outside. Known "
-         "finding: unsound acceptances of the (mainly XSD 1.1) group restriction checker, listed per input in known/C14.json.",
+    note="Facet and attribute-use restriction checks run inside schema construction: exercised only in weak form (attr-use/*, attr-fixed/*, "
+         "facet-restriction/*: the solver picks base/derived use, types, fixed values or facet pairs, the schema is constructed concretely "
+         "outside the tracer and accepted derivations are compared on probe instances). Known finding: unsound acceptances of the (mainly "
+         "XSD 1.1) group restriction checker, listed per input in known/C14.json.",
     ref="DESIGN.md 5/C14")
 
 CHECKS["C07"] = dict(
@@ -168,7 +171,10 @@ CHECKS["C13"] = dict(
          "under 'remote' for every base URL string of the bound; (2) after a pre-scan read and seek(0) the re-reader delivers exactly the "
          "original bytes with a consistent tell(), or raises OSError, for every read-size script and stream length around the buffer size; "
          "(3) defuse_xml propagates a forbidden-declaration error raised before the first start tag for every event script and otherwise "
-         "rewinds; (4) the three expat handlers are installed and always raise; (5) 11 DTD payloads x 4 source kinds through the real parser.",
+         "rewinds; (4) the three expat handlers are installed and always raise; (5) 11 DTD payloads x 4 source kinds through the real parser; "
+         "(6) the same payloads through parse()/XmlDocument/subclass/schema entry points of objects created with defuse='always'; (7) 8 DTD "
+         "prologs x {main schema text/file, included, imported, include_schema(), instance} x {plain, parent-derived schema set} on real files "
+         "(weak form: the solver picks the arrangement, each path is one concrete run outside the tracer).",
     note="Trusted base: pyexpat calls the declaration handlers before expanding/fetching (Python documentation). Buffer size constant scaled to "
          "8 bytes in the reader obligations. URL sources and encodings inside expat outside.",
     ref="DESIGN.md 5/C13")
@@ -179,8 +185,8 @@ CHECKS["C19"] = dict(
     category="model_checking",
     text="Path kernel: for every tree of 4 (5 thorough) nodes (every parent vector), every tag assignment from a pool over two namespaces and "
          "no namespace, every target node and four namespace maps (prefixes, default namespace, two prefixes for one URI, empty), the path "
-         "returned for add_position=True selects exactly the target under the reference evaluator. Localisation: for each of 9 nodes x 7 fault "
-         "kinds (bad value, removed/extra/misplaced child, missing/extra/bad attribute) the document is reported invalid, every error path "
+         "returned for add_position=True selects exactly the target under the reference evaluator. Localisation: for each of 9 nodes x 9 fault "
+         "kinds (bad value, removed/extra/misplaced child, missing/extra/bad attribute, undeclared leaf under a strict wildcard, dangling IDREF) the document is reported invalid, every error path "
          "selects exactly the error's element, one error sits at the damaged node or its parent and none outside its ancestor chain/subtree.",
     note="Finite-choice. Known finding: unprefixed step for a no-namespace element under a default-namespace map (region subtracted). Lazy "
          "resources and identity-constraint errors outside.",
@@ -205,17 +211,23 @@ CHECKS["C06"] = dict(
     text="For every document of the bound (1-2 items quick, 3 thorough; per item key attribute, keyref attribute, 0-2 children with valid/"
          "invalid text, optional inner xmlns declaration) lazy depth-1 processing yields the same (reason, path) error sequence as the loaded "
          "document, the same decoded data after consuming the streamed children, and iteration yields the same tags, texts and in-scope "
-         "namespaces in document order - outside three recorded findings.",
+         "namespaces in document order - outside the recorded findings. Further obligations: QName values whose prefix is declared on the "
+         "streamed item itself, two items separated by up to 70 000 characters (expat read blocks), an undeclared wildcard-matched child with "
+         "xsi:type, character data after a child, an invalid root attribute; verdict + multiset of reasons is compared on the whole domain "
+         "with no exclusion.",
     note="Finite-choice. Real parser (expat) on the generated text. Known findings (open): reversed sibling order of lazy iter(), identity "
-         "errors located at the last child in lazy mode, lazy decode() not reporting identity errors; each subtracted by a region predicate.",
+         "errors located at the last child, lazy decode() not reporting identity errors and dropping a chunk's own xmlns, root errors "
+         "reported last, path spelling and positional predicate depending on the parser state; each subtracted by a region predicate from "
+         "the ordered (reason, path) comparison only.",
     ref="DESIGN.md 5/C06")
 
 CHECKS["C10"] = dict(
     technique=TECH + " - call histories (operation x document per step) chosen by symbolic indices on a schema built fresh per path, "
                      "probe result compared with an unused fresh schema (finite-choice, differential)",
     category="model_checking",
-    text="For every history of the bound (quick: one step of 8 operations x 6 documents; thorough: two steps) - is_valid, validate, "
-         "iter_errors, strict/lax decode, to_objects, an abandoned iter_errors generator, decode+encode - over documents that use xsi:type "
+    text="For every history of the bound (quick: one step of 7 selected operations x 11 documents; thorough: two steps of 4 stateful "
+         "operations x 8 documents) - is_valid, validate, iter_errors, strict/lax decode, to_objects, an abandoned iter_errors generator, "
+         "decode+encode, a depth-limited decode, a lazy run - over documents that use xsi:type "
          "with complex content inside a key scope, duplicate keys reached through the xsi:type'd content, fixed values, a foreign wildcard "
          "child and early strict failures, every probe document yields the same verdict, (reason, path) errors and decoded data as on a "
          "schema that processed nothing; both schema classes.",
